@@ -111,7 +111,7 @@ def vstr(v, depth=0):
     if k == "sym":
         return "«%s»" % v[1]
     if k == "term":
-        return "%s(%s)" % (T.short(v[1], 2), ", ".join(vstr(x, d) for x in v[2]))
+        return "%s%s(%s)" % (T.short(v[1], 2), ("#%d" % v[3]) if len(v) > 3 else "", ", ".join(vstr(x, d) for x in v[2]))
     if k == "field":
         return "%s.%s" % (vstr(v[1], d), v[2])
     if k == "payload":
@@ -167,6 +167,16 @@ class PathResult:
 
     def calls(self, *suffixes):
         return [e for e in self.trace if e[0] == "call" and (not suffixes or e[1].endswith(suffixes) or T.short(e[1], 2).endswith(suffixes))]
+
+    def after_loop_with(self, *suffixes):
+        """Did this path leave (break out of) a loop in which a call matching one of the suffixes was made?"""
+        seen = False
+        for e in self.trace:
+            if e[0] == "call" and (e[1].endswith(suffixes) or T.short(e[1], 2).endswith(suffixes)):
+                seen = True
+            if e[0] == "loop-exit" and seen:
+                return True
+        return False
 
     def assigns(self, name=None):
         return [e for e in self.trace if e[0] == "assign" and (name is None or e[1] == name)]
@@ -228,6 +238,7 @@ class Interp:
             self.trace = []
             self.assume = {}
             self._sym = 0
+            self._occ = {}
             env = dict(env0 or {})
             self._bind_params(t, args, env)
             end, ret = "fallthrough", None
@@ -606,6 +617,7 @@ class Interp:
         try:
             self.ev(e["body"], env, depth)
         except _Break as b:
+            self.trace.append(("loop-exit", b.value, e.get("sp")))
             return b.value
         except _IterEnd:
             pass
@@ -704,7 +716,30 @@ class Interp:
             finally:
                 self._inline_depth -= 1
         self.trace.append(("call", fn, tuple(args), node.get("sp")))
+        if self._effectful(node):
+            # a call through `&mut` (a reader, an iterator, a connection) yields a new value every time it is made
+            key = (fn, vstr(("tuple", tuple(args))))
+            n = self._occ.get(key, 0)
+            self._occ[key] = n + 1
+            if n:
+                return ("term", fn, tuple(args), n)
         return ("term", fn, tuple(args))
+
+    def _effectful(self, node):
+        for a in node.get("args", []) or []:
+            x = a
+            for _ in range(4):
+                if not isinstance(x, dict):
+                    break
+                if x.get("k") == "Borrow" and x.get("mut"):
+                    return True
+                if (x.get("ty") or "").startswith("&mut "):
+                    return True
+                if x.get("k") in ("Deref", "Coerce", "Cast", "Borrow", "Use", "Scope") and x.get("arg") is not None:
+                    x = x["arg"]
+                else:
+                    break
+        return False
 
     def _may_inline(self, fn, t):
         if any(fn.endswith(x) or x in fn for x in self.no_inline):
